@@ -8,7 +8,8 @@ namespace XSM
 inductive Flavor where | sync | async
 deriving DecidableEq, Repr, Inhabited
 
-/-- a queued event; `self` marks one the interpreter raised at itself while processing (async) -/
+/-- a queued event; `self` marks one the interpreter enqueued at itself while processing (async:
+    `_self_raised`; sync: `_raised_in_drain`) -/
 structure QEv where
   ev : Ev
   self : Bool := false
@@ -318,29 +319,55 @@ def mkHooks (u : UEnv) (m : Machine) (sync : Bool) (snd sndRaise : Snd) : Hooks 
     geval := fun g s ev => evalGuard m s.cfg (u.genv s.ctx ev) g }
 
 -- SYNC ---------------------------------------------------------------------------------------------
-/-- every send made while `_is_processing` is set only enqueues -/
-def hooksFlagged (u : UEnv) (m : Machine) : Hooks := mkHooks u m true enqueue enqueue
+/-- every send made while `_is_processing` is set only enqueues — and `send()` / `send_events()` MARK what
+    they enqueue then (`self._raised_in_drain.add(id(event_obj))`): the `raise` built-in, `done.state.*`, a
+    `send()` made by an action. `_is_processing` is set during the initial entry and the settling of
+    `start()` and during every drain; the mark of a queued entry is its `self` flag. -/
+def hooksFlagged (u : UEnv) (m : Machine) : Hooks := mkHooks u m true (enqueueQ true) (enqueueQ true)
 
-def drainLoop (m : Machine) (u : UEnv) : Nat → St → St
-  | 0, s => if s.queue.isEmpty then s else { s with queue := [] }
-  | budget + 1, s =>
+/-- the cut of `_process_event_queue` (`chained > limit`): the marked events still queued — the one at the
+    head included — are discarded, the external ones are kept, in order (`kept`), the marks are cleared
+    (nothing marked is left) -/
+def syncPurge (s : St) : St := { s with queue := s.queue.filter (fun q => !q.self) }
+
+/-- `id(self._event_queue[0]) in self._raised_in_drain`, `chained += 1`, `if chained > limit` -/
+def syncTrips (m : Machine) (chained : Nat) (q : QEv) : Bool := q.self && decide (chained + 1 > m.maxIterations)
+
+/-- the counter after the head `q` has been looked at (and is going to be processed) -/
+def chainedNext (chained : Nat) (q : QEv) : Nat := if q.self then chained + 1 else chained
+
+/-- the `while self._event_queue:` loop of `_process_event_queue`, carrying its local `chained`: only the
+    dequeues of MARKED events count; when the count exceeds `maxIterations` the marked entries are purged
+    (`syncPurge`), the counter is reset and the loop GOES ON with the external events. A failing macrostep
+    aborts the drain (the exception propagates to the caller of `send`): whatever is queued stays queued,
+    marks included. The first argument is a MODEL fuel — the code has no such counter; it is recursed on
+    only to make the definition structural. `drainFuel` always suffices (`Xsm/Proofs/SyncDrain.lean`:
+    `Term.drain_no_hang`, `C13.sync_drain_terminates`), so the fuel-0 branch is never reached with events pending on a running
+    interpreter; it discards them (any total choice would do). -/
+def drainLoop (m : Machine) (u : UEnv) : Nat → Nat → St → St
+  | 0, _, s => if s.queue.isEmpty then s else { s with queue := [] }
+  | fuel + 1, chained, s =>
     match s.queue with
     | [] => s
-    | ⟨e, _⟩ :: rest =>
-      -- a machine that completed / failed / stopped processes nothing further
+    | q :: rest =>
+      -- a machine that completed / failed / stopped processes nothing further (marks cleared with the queue)
       if s.status ≠ "running" then { s with queue := [] } else
+      if syncTrips m chained q then drainLoop m u fuel 0 (syncPurge s) else
       -- `on_event_received` plugins see every dequeued event
-      let s := processEvent (hooksFlagged u m) .sync m u e (emit ("#recv:" ++ e.type) { s with queue := rest })
-      let s := transientLoop (hooksFlagged u m) .sync m u m.maxIterations s
-      if s.err.isSome then s else drainLoop m u budget s
+      let s1 := processEvent (hooksFlagged u m) .sync m u q.ev (emit ("#recv:" ++ q.ev.type) { s with queue := rest })
+      let s2 := transientLoop (hooksFlagged u m) .sync m u m.maxIterations s1
+      if s2.err.isSome then s2 else drainLoop m u fuel (chainedNext chained q) s2
 
-/-- `_process_event_queue()` entered with `_is_processing` clear: `budget = limit + len(self._event_queue)`
-    is computed ONCE, when the drain starts — the events already queued then (accepted from outside by
-    `send()` / `send_events()`, which append BEFORE calling it, raised during `start()`, or left over by a
-    send that raised) do not count towards the ceiling, only what is enqueued while draining does -/
-def drainBudget (m : Machine) (s : St) : Nat := m.maxIterations + s.queue.length
+/-- number of queued events that were accepted from outside (not marked) -/
+def extCount (l : List QEv) : Nat := l.countP (fun q => !q.self)
 
-def drainFlagged (m : Machine) (u : UEnv) (s : St) : St := drainLoop m u (drainBudget m s) s
+/-- an upper bound on the number of iterations of one `_process_event_queue()`: between two dequeues of
+    external events (none is ever added while draining: everything enqueued then is marked) at most
+    `maxIterations` marked events are processed and one cut happens -/
+def drainFuel (m : Machine) (s : St) : Nat := (extCount s.queue + 1) * (m.maxIterations + 2)
+
+/-- `_process_event_queue()` entered with `_is_processing` clear: `chained = 0` -/
+def drainFlagged (m : Machine) (u : UEnv) (s : St) : St := drainLoop m u (drainFuel m s) 0 s
 
 def sndUnflagged (m : Machine) (u : UEnv) : Snd := fun e s =>
   if s.status = "running" then drainFlagged m u { s with queue := s.queue ++ [⟨e, false⟩] } else s
